@@ -83,6 +83,8 @@ def replay_group(which, stream):
     returns (x, signbit, consumed, field_rejections, curve_rejections) or None"""
     pos = 0
     frej = crej = 0
+    trej = TORSION_RETRIES
+    trej[0] = 0
     while True:
         if which == 1:
             x, pos, r = replay_fq(stream, pos)
@@ -103,8 +105,40 @@ def replay_group(which, stream):
         b = stream[pos]
         pos += 1
         if (ok1(x) if which == 1 else ok2(x)):
+            # the specified sampler retries when the cofactor multiple is the identity (points of order dividing the cofactor)
+            y = O.fq_sqrt(rhs1(x)) if which == 1 else O.f2_sqrt(rhs2(x))
+            E = O.E1 if which == 1 else O.E2
+            if E.mul((x, y), O.H1 if which == 1 else O.H2) is None:
+                trej[0] += 1
+                continue
             return x, b & 1, pos, frej, crej
         crej += 1
+
+
+TORSION_RETRIES = [0]
+
+
+def torsion_stream(which, rng, n_torsion):
+    """first draws are abscissas of points whose order divides the cofactor (their cofactor multiple is the identity: the
+    sampler must draw again), then an ordinary acceptable draw"""
+    s = b''
+    E = O.E1 if which == 1 else O.E2
+    for i in range(n_torsion):
+        if which == 1 and i == 0:
+            x = 0                                   # (0, +-2) has order 3 and 3 divides the G1 cofactor
+        else:
+            while True:
+                P = O.find_point1(rng) if which == 1 else O.find_point2(rng)
+                T = E.mul(P, R)                     # order divides the cofactor
+                if T is not None:
+                    break
+            x = T[0]
+        if which == 1:
+            s += fq_stream(rng, x, 0)
+        else:
+            s += fq_stream(rng, x[0], 0) + fq_stream(rng, x[1], 0)
+        s += bytes([rng.getrandbits(8)])
+    return s + group_stream(which, rng, 0, 0)
 
 
 def group_stream(which, rng, frej, crej):
@@ -178,6 +212,10 @@ def worker(sh):
     for _ in range(sh.pick(3, 40)):
         s = rng.getrandbits(8 * 49 * 30).to_bytes(49 * 30, 'little')
         add('c.g1_random %s' % s.hex(), 'grand', 1, s)
+    if sh.index < 8:
+        for which, opn in ((1, 'c.g1_random'), (2, 'c.g2_random'), (1, 'c.wkd_random_g1'), (2, 'c.wkd_random_g2')):
+            s = torsion_stream(which, rng, 1 + (sh.index % 2))
+            add('%s %s' % (opn, s.hex()), 'grand', which, s)
     for (dr, orj) in ([(0, 0), (2, 0), (0, 1), (5, 1)] if sh.index < 4 else []) + [(rng.randrange(2), 0) for _ in range(sh.pick(2, 30))]:
         s = make_stream(rng, dr, orj)
         add('rc.pox.random %s' % s.hex(), 'prand', s)
@@ -264,7 +302,7 @@ def worker(sh):
                     cls = 'stream-exhausted(membership only)'
                 else:
                     x, sb, pos, frej, crej = rep
-                    cls = 'field-rej%d/curve-rej%d' % (min(frej, 5), min(crej, 7))
+                    cls = 'field-rej%d/curve-rej%d' % (min(frej, 5), min(crej, 7)) + ('/torsion-retry%d' % TORSION_RETRIES[0] if TORSION_RETRIES[0] else '')
                     y = O.fq_sqrt(rhs1(x)) if which == 1 else O.f2_sqrt(rhs2(x))
                     e = E.mul((x, y), gc.cof)
                     if consumed != pos:
@@ -339,6 +377,9 @@ def run(ctx):
     need = ['c.g1affine_from_hash|incr0', 'c.g1affine_from_hash|incr6', 'c.g1affine_from_hash|incr8', 'c.g2affine_from_hash|incr5', 'c.g2affine_from_hash|incr0', 'c.lq_id_from_hash|incr',
             'c.g1_random|field-rej0/curve-rej3', 'c.g2_random|field-rej0/curve-rej3', 'c.g1_random|field-rej4', 'c.wkd_random_g1|', 'c.wkd_random_g2|', 'c.zp_from_hash|masked>=r',
             'PowersOfX::random|digit-rej0/outer-rej1', 'Fq2.random|', 'c.zp_random|rej3', 'c.random_zpstar|']
+    for G in ('c.g1_random', 'c.g2_random', 'c.wkd_random_g1', 'c.wkd_random_g2'):
+        if not any(k.startswith(G + '|') and 'torsion-retry' in k for k in ctx.classes):
+            ctx.required_classes.add(G + '|torsion-retry')
     if not any('c0-wraps' in k for k in ctx.classes):
         ctx.required_classes.add('c.g2affine_from_hash|c0-wraps')
     for r in need:
